@@ -72,27 +72,37 @@ deriving Repr
 
 def countEq (v : List Int) (x : Int) : Nat := (v.filter (· == x)).length
 
-/-- one round of the fetch loop: request, response, callbacks.  `none` = the download failed -/
+/-- `zck_get_missing_range(zck, limit)` on the target's index with the current marks -/
+def reqOf (th : Hdr) (limit : Int) (valid : List Int) : Range.RSt :=
+  Range.missing (th.lead + th.headerLen)
+    (th.chunks.zipIdx.map fun (c, k) => (⟨c.number, c.start, c.compLen, valid.getD k 0⟩ : Range.Chunk)) limit
+
+/-- one transfer: a fresh `zckDL` (zck_dl_reset) on the context, header lines to `zck_header_cb`, body fragments to
+`zck_write_chunk_cb`, the transport stopping at the first refusal.  Returns what the callbacks returned and the end state -/
+def session (e : Dl.Env) (file : Bytes) (valid : List Int) (lines frags : List Bytes) : List Nat × List Nat × Dl.St :=
+  let st0 : Dl.St := { file := file, pos := 0, valid := valid }
+  let h := Dl.feedHdrs e st0 lines []
+  let b := Dl.feed e true false h.2 frags []
+  (h.1, b.1, b.2)
+
+def accepted (rets : List Nat) (frags : List Bytes) : Bool :=
+  rets.length == frags.length && (rets.zip frags).all (fun (r, f) => r == f.length)
+
+/-- one round of the fetch loop: request, response, callbacks.  `none` = the request could not be made or served -/
 def round (H : HashFn) (rx : Dl.Rx) (B : Bytes) (th : Hdr) (limit : Int) (frag : Nat) (file : Bytes) (valid : List Int) :
     String × Option (Bytes × List Int × Bool) :=
-  let hdrLen := th.lead + th.headerLen
-  let rchunks : List Range.Chunk := th.chunks.zipIdx.map fun (c, k) => ⟨c.number, c.start, c.compLen, valid.getD k 0⟩
-  let rst := Range.missing hdrLen rchunks limit
+  let rst := reqOf th limit valid
   let rtext := if rst.items.isEmpty then "" else (Range.render rst.items).getD ""
   if rtext.isEmpty then ("-", none) else
   match clip B.length rst.items with
   | none => (rtext, none)
   | some rs =>
-    let (lines, body) := respond B rs
+    let resp := respond B rs
     let e : Dl.Env := { H := H, rx := rx, hdr := th, ridx := Dl.mkRidx rst.index 0 }
-    -- zck_dl_reset: a fresh zckDL on the same context (the descriptor's offset is wherever the last write left it)
-    let st0 : Dl.St := { file := file, pos := 0, valid := valid }
-    let (hr, st1) := Dl.feedHdrs e st0 lines []
-    if ¬ (hr.zip lines).all (fun (r, l) => r == l.length) then (rtext, none) else
-    let frags := pieces frag body
-    let (br, st2) := Dl.feed e true false st1 frags []
-    if ¬ (br.length == frags.length ∧ (br.zip frags).all (fun (r, f) => r == f.length)) then (rtext, some (st2.file, st2.valid, false))
-    else (rtext, some (st2.file, st2.valid, true))
+    let frags := pieces frag resp.2
+    let s := session e file valid resp.1 frags
+    if ¬ accepted s.1 resp.1 then (rtext, none)
+    else (rtext, some (s.2.2.file, s.2.2.valid, accepted s.2.1 frags))
 
 /-- the fetch loop; fuel bounds the number of rounds (each successful round validates at least one chunk) -/
 def loop (H : HashFn) (rx : Dl.Rx) (B : Bytes) (th : Hdr) (limit : Int) (frag : Nat) :
